@@ -528,3 +528,98 @@ func ruleR048(c *Ctx) {
 	c.Check(found, key, fd.Pos(), fmt.Sprintf("a rune decoded from the input that equals the end-of-input mark %s is replaced before it is returned", sentinel),
 		fmt.Sprintf("a character of the input that decodes to %s is returned as it is, and every consumer takes %s for the end of the input: the text behind a NUL character is silently ignored (1\\x00*2 parses as 1)", sentinel, sentinel))
 }
+
+// ---------------------------------------------------------------------------
+// R04.9 error decoration that scales with the configuration is added once
+
+// ruleR049: a function err -> err that appends a payload built in a loop (the
+// documentation of all registered functions) is called on the error of nested
+// generator calls, once per nesting level. Unless it recognises an error it
+// has already decorated and returns it unchanged, message size and run time
+// grow with depth x payload, and because every level copies the message,
+// quadratically with the depth of the input.
+func ruleR049(c *Ctx) {
+	n := 0
+	for _, pkg := range c.RepoPkgs {
+		info := pkg.TypesInfo
+		for _, f := range pkg.Syntax {
+			for _, d := range f.Decls {
+				fd, ok := d.(*ast.FuncDecl)
+				if !ok || fd.Body == nil || fd.Type.Params == nil || fd.Type.Results == nil {
+					continue
+				}
+				obj, _ := info.Defs[fd.Name].(*types.Func)
+				if obj == nil {
+					continue
+				}
+				sig := obj.Type().(*types.Signature)
+				if sig.Params().Len() != 1 || sig.Results().Len() != 1 || !isErrorType(sig.Params().At(0).Type()) || !isErrorType(sig.Results().At(0).Type()) {
+					continue
+				}
+				if len(fd.Type.Params.List[0].Names) != 1 {
+					continue
+				}
+				param := info.Defs[fd.Type.Params.List[0].Names[0]]
+				loops := containsNode(fd.Body, func(x ast.Node) bool {
+					switch x.(type) {
+					case *ast.RangeStmt, *ast.ForStmt:
+						return true
+					}
+					return false
+				})
+				if !loops {
+					continue
+				}
+				// is it used on errors at all (called somewhere in the repository)?
+				n++
+				key := declName(pkg, fd) + "#decorates-once"
+				// the guard: an if statement before the first loop that inspects the parameter with errors.As/Is or a type
+				// assertion and returns the parameter unchanged
+				idempotent := false
+				for _, s := range fd.Body.List {
+					if _, isLoop := s.(*ast.RangeStmt); isLoop {
+						break
+					}
+					if _, isLoop := s.(*ast.ForStmt); isLoop {
+						break
+					}
+					ifs, ok := s.(*ast.IfStmt)
+					if !ok {
+						continue
+					}
+					inspects := containsNode(ifs, func(x ast.Node) bool {
+						switch t := x.(type) {
+						case *ast.CallExpr:
+							if cal := Callee(info, t); cal != nil && cal.Pkg() != nil && cal.Pkg().Path() == "errors" && (cal.Name() == "As" || cal.Name() == "Is") && len(t.Args) >= 1 {
+								if id, ok := ast.Unparen(t.Args[0]).(*ast.Ident); ok && info.ObjectOf(id) == param {
+									return true
+								}
+							}
+						case *ast.TypeAssertExpr:
+							if id, ok := ast.Unparen(t.X).(*ast.Ident); ok && info.ObjectOf(id) == param {
+								return true
+							}
+						}
+						return false
+					})
+					returnsParam := false
+					for _, b := range ifs.Body.List {
+						if r, ok := b.(*ast.ReturnStmt); ok && len(r.Results) == 1 {
+							if id, ok := ast.Unparen(r.Results[0]).(*ast.Ident); ok && info.ObjectOf(id) == param {
+								returnsParam = true
+							}
+						}
+					}
+					if inspects && returnsParam {
+						idempotent = true
+					}
+				}
+				c.Check(idempotent, key, fd.Pos(), "an error that already carries the payload is returned unchanged: the payload is added once, whatever the nesting depth",
+					"the function appends a payload built in a loop to every error it is handed, also to one it has decorated before: called once per nesting level of the input, the message grows by the whole payload at each level and is copied each time (Generate needs time quadratic in the depth of the input: 15 s for 4.8 kB)")
+			}
+		}
+	}
+	if n == 0 {
+		c.Undecided("repo#error-decorators", token.NoPos, "no error decorator with a loop found")
+	}
+}
